@@ -537,12 +537,14 @@ func histAmbient(c *core.Ctx, sb *sandbox, res *core.ShardResult, wl *core.WLog)
 	n := 0
 	// a user-defined task named clean is an executed task like any other, also under --force
 	if c.Shard == 0 {
-		shape := hshape{Name: "user-defined-clean-task", Tasks: []htask{{Name: "A", Lits: []string{"a.txt"}, NCmd: 1}, {Name: "clean", Lits: []string{"b.txt"}, Deps: []string{"A"}, NCmd: 1}}, Files: []string{"a.txt", "b.txt"}}
+		shape := hshape{Name: "user-defined-clean-task", Tasks: []htask{{Name: "A", Lits: []string{"a.txt"}, NCmd: 1, Outs: []string{"o.txt"}}, {Name: "clean", Lits: []string{"b.txt"}, Deps: []string{"A"}, NCmd: 1}}, Files: []string{"a.txt", "b.txt"}}
 		for _, force := range []bool{true, false} {
 			h := hcase{Shape: shape, Via: "binary"}
 			h.Ops = []hop{{Kind: "write", File: "a.txt", Value: "v1"}, {Kind: "write", File: "b.txt", Value: "v1"},
 				{Kind: "run", Tasks: []string{"clean"}, Clean: true}, {Kind: "run", Tasks: []string{"clean"}, Clean: true, Force: force},
-				{Kind: "write", File: "b.txt", Value: "v2"}, {Kind: "run", Tasks: []string{"clean"}, Clean: true}, {Kind: "run", Tasks: []string{"clean"}, Clean: true}}
+				{Kind: "write", File: "b.txt", Value: "v2"}, {Kind: "run", Tasks: []string{"clean"}, Clean: true}, {Kind: "run", Tasks: []string{"clean"}, Clean: true},
+				// the task with a declared output is still up to date after the user's clean task has run
+				{Kind: "run", Tasks: []string{"A"}}, {Kind: "run", Tasks: []string{"A", "clean"}}}
 			vs, stats := execHistory(c, sb, h, c.Prop)
 			res.Evaluations += int64(stats.Runs)
 			res.Count("histories_through_a_user_defined_clean_task", 1)
